@@ -1003,4 +1003,54 @@ theorem calls_at_boundaries_from (P : Prims) (F : Factory) (c : Conn) :
         simp only [callsFrom, List.append_eq_nil_iff] at this
         rw [this.2] at hk; simp at hk
 
+
+/-- the possible conn-visible behaviours from a phase on, in **any** run -/
+def ShapeAll (F : Factory) (c : Conn) : Phase → List Out → Prop
+  | .handshake _ _, w => w = [] ∨ w = [.setReadDeadline (D F c)] ∨ w = [.setReadDeadline (D F c), .close] ∨ w = [.close]
+      ∨ ∃ b, w = [.setDeadline none, .write b]
+  | .discarding _, w => w = [] ∨ w = [.close]
+  | .closed, w => w = []
+  | .established, w => w = []
+
+theorem shape_all_from (P : Prims) (F : Factory) (c : Conn) :
+    ∀ (evs : List Ev) (s : State), ShapeAll F c s.phase (wire (outsOf (runFrom P F c s evs).2)) := by
+  intro evs
+  induction evs with
+  | nil =>
+    intro s
+    cases hph : s.phase <;> simp [ShapeAll, runFrom, outsOf, wire]
+  | cons e rest ih =>
+    intro s
+    rw [runFrom_cons, outsOf_cons]
+    have ih' := ih (step P F c s e).1
+    cases hph : s.phase with
+    | handshake hs buf =>
+      have h1 := (step_handshake P F c s e hs buf hph).1
+      generalize step P F c s e = r at h1 ih' ⊢
+      cases h1 with
+      | more hs' f' chunk hev hl =>
+        simp only [ShapeAll, wire, List.nil_append] at ih' ⊢; exact ih'
+      | accept f' b =>
+        simp only [ShapeAll, wire, List.filter_append] at ih' ⊢
+        rw [ih']; simp [List.filter, Out.isWire]
+      | discard f' er hl hev =>
+        simp only [ShapeAll, wire, List.filter_append] at ih' ⊢
+        rcases ih' with h | h <;> rw [h] <;> simp [List.filter, Out.isWire]
+      | eof f' er hl hev =>
+        simp only [ShapeAll, wire, List.filter_append] at ih' ⊢
+        rw [ih']; simp [List.filter, Out.isWire]
+      | late f' er hl =>
+        simp only [ShapeAll, wire, List.filter_append] at ih' ⊢
+        rw [ih']; simp [List.filter, Out.isWire]
+    | discarding er =>
+      rcases step_discarding P F c s e er hph with ⟨h, _⟩ | ⟨h, _⟩
+      · rw [h] at ih' ⊢; rw [hph] at ih'; simpa using ih'
+      · rw [h] at ih' ⊢
+        simp only [ShapeAll, wire, List.filter_append] at ih' ⊢
+        rw [ih']; simp [List.filter, Out.isWire]
+    | closed =>
+      rw [step_closed P F c s e hph] at ih' ⊢; rw [hph] at ih'; simpa using ih'
+    | established =>
+      rw [step_established P F c s e hph] at ih' ⊢; rw [hph] at ih'; simpa using ih'
+
 end O4.Obfs4Server
